@@ -193,8 +193,9 @@ def run(chk):
                 chk.count('writers', [progs, comp, secret is not None, [d[2] for d in run_.decisions]], run_.preempt >= 1)
                 c12.check_run(chk, run_, 'writers')
     reader_side(chk, C, Raw, Conn, combos, rng, th)
-    import c15
+    import c15, c10
     c15.whole_streams(chk, 'connection')
+    c10.relogin(chk)          # compression / cipher state of an earlier session never frames the next one
     chk.assumptions += ['zlib is library code: in the model inflate/deflate are a table computed by the harness with Python zlib (the theorems hold for every codec with inflate(deflate x) = x)',
                         'BytesIO / select / the kernel socket layer are replaced by the simulated transport: a read returns 1..n bytes or, at end of stream, none']
 
